@@ -183,4 +183,18 @@ theorem setitemList_none_outside : ∀ (ts : List Ty) (L : Locals) (n : Nat) (p 
         (fun h => hq (under_child_trans h)) hL)
 end
 
+/-- after any `setitem` at `p` no place enclosing `p` is in `locals` -/
+theorem setitem_enclosing_none (t : Ty) (L : Locals) (n : Nat) (p : PlaceId) (w : Wire)
+    (isRet : Bool) : ∀ q ∈ enclosing p, (setitem L n p isRet w t).1 q = none := by
+  intro q hq
+  have hlen := (mem_enclosing hq).2
+  have hnu : ¬ p <:+ q := fun hs => by have := hs.length_le; omega
+  have : (setitem (popEnclosing L p) n p isRet w t).1 q = none :=
+    setitem_none_outside t _ n p isRet w q hnu (by simp [popEnclosing_apply, hq])
+  have hidem : popEnclosing (popEnclosing L p) p = popEnclosing L p := by
+    funext x; simp only [popEnclosing_apply]; split <;> rfl
+  cases t with
+  | leaf c d => simpa [setitem, hidem] using this
+  | node k cs => cases isRet <;> simpa [setitem, hidem] using this
+
 end GuppyVerif.Wiring
